@@ -161,7 +161,7 @@ Lemma raw_key_breaks nf k :
 Proof.
   intros Hk Hnf.
   exists {| sc_started := true; sc_trusted := true; sc_pstate := 0;
-            sc_conn := Some (38, false); sc_counter := true; sc_others := 0 |}.
+            sc_conn := Some (38, false); sc_counter := true; sc_others := 0; sc_fresh := false |}.
   exists [97], [65]. split; [vm_compute; reflexivity|].
   destruct k; try congruence; simpl in Hnf;
     unfold run_op, step, mk_op, key; rewrite Hnf; vm_compute; discriminate.
